@@ -82,6 +82,7 @@ def jobs(tier):
         sh.append(('hexjunk', enc))
     sh.append(('retrain', 'utf-8'))
     sh.append(('locale', 0))
+    sh.append(('flat', 0))
     # terminal files of more than 10 000 lines (what any real list gives), also under encodings that start a stream with a byte order mark
     for enc in ('utf-8', 'utf-16', 'utf-8-sig'):
         sh.append(('bigfile', enc))
@@ -287,6 +288,20 @@ def compare_training(wd, lines, enc, acc, case, raw_bytes=None, keep_existing=Fa
             bad = [v for v in want if len(v) != int(n)]
             if bad:
                 fails.append(('terminal-length', '%s/%s holds %d value(s) whose length is not %s, e.g. %r (line %d of %d)' % (folder, fn, len(bad), n, bad[0], want.index(bad[0]) + 1, len(want))))
+    # ---- the two flat terminal files (years, context-sensitive strings): same three readers
+    for folder, k, attr in (('Years', 'Y1', 'count_years'), ('Context', 'X1', 'count_context_sensitive')):
+        fpath = os.path.join(base, folder, '1.txt')
+        if not os.path.exists(fpath):
+            continue
+        want = [v for v, _ in P.read_list(fpath, enc)]
+        if gg is not None:
+            got = [v for grp in gg.grammar.get(k, []) for v in grp['values']]
+            if got != want:
+                fails.append(('terminal-guesser', '%s/1.txt: guesser loader %d values, file has %d%s' % (folder, len(got), len(want), first_diff(got, want))))
+        if oks:
+            got = list(getattr(sg, attr))
+            if got != want:
+                fails.append(('terminal-scorer', '%s/1.txt: scorer loader %d values, file has %d%s' % (folder, len(got), len(want), first_diff(got, want))))
     # ---- config.ini names exactly the files that exist
     import configparser
     import json
@@ -440,6 +455,25 @@ def run_retrain(enc, tier, acc):
     acc.sample({'layer': 'retrain', 'pool': RETRAIN_POOL, 'history_length': depth}, cap=1)
 
 
+# years are 19xx / 20xx with any two characters that str.isdigit() accepts (Arabic-Indic, superscript, fullwidth digits); context strings are a fixed list
+FLAT_LISTS = [['love2019', 'pass20\u0661\u0669', 'x20\u00b2\u00b34', '#1abc', 'i<3you', '1999x', 'love2019', 'ab19\uff11\uff12'],
+              ['pass20\u00b2\u00b3', 'love1999', '#1x', 'caf\u00e92010', ';pabc'], ['1999', '2010', 'abc#1', 'no.1x']]
+
+
+def run_flat(tier, acc):
+    wd = tree.mkdtemp('pcfgmc-c07f-')
+    for li, lines in enumerate(FLAT_LISTS):
+        for enc in ('utf-8', 'utf-16', 'latin-1', 'cp1252', 'utf-32', 'utf-8-sig'):
+            if not all(can_encode(ch, enc) for l in lines for ch in l):
+                continue
+            acc.evals += 1
+            acc.nontrivial += 1
+            case = {'layer': 'flat', 'encoding': enc, 'list': li}
+            for sig, msg in compare_training(wd, lines, enc, acc, case):
+                acc.fail(case, 'list %r as a %s ruleset: %s' % (lines, enc, msg), 'flat-' + sig)
+    tree.rmtree(wd)
+
+
 def run_bigfile(enc, tier, acc):
     nums = [str(x) for x in range(300000, 360000) if '19' not in str(x) and '20' not in str(x)][:10400 if tier == 'quick' else 25000]
     lines = nums + ['password', 'Password1', 'x yz', 'caf\u00e9']
@@ -506,6 +540,8 @@ def run_shard(shard, tier, acc):
         return run_locale(tier, acc)
     if kind == 'bigfile':
         return run_bigfile(shard[1], tier, acc)
+    if kind == 'flat':
+        return run_flat(tier, acc)
     if kind == 'hexjunk':
         return run_hexjunk(shard[1], acc)
     if kind == 'retrain':
@@ -580,6 +616,10 @@ def replay(case):
         run_bigfile(case['encoding'], 'quick', acc)
         tree.rmtree(wd)
         return acc.failures[0]['msg'] if acc.failures else None
+    if case['layer'] == 'flat':
+        fails = compare_training(wd, FLAT_LISTS[case['list']], case['encoding'], acc, None)
+        tree.rmtree(wd)
+        return fails[0][1] if fails else None
     if case['layer'] == 'retrain':
         fails = []
         for step, li in enumerate(case['history']):
